@@ -75,14 +75,26 @@ def run_mc(ctx: Ctx, rep: Report):
 
 # ---------------------------------------------------------------------------------------------
 def gen_templates(ctx: Ctx, n: int) -> list:
+    """random templates; template i is made to contain wrapper kind i (mod 11) where the kind fits the MDP's spaces, so that
+    every documented wrapper kind occurs in every run"""
     rng = ctx.rng
     out = []
-    combos = [("disc", "disc"), ("box", "box"), ("disc", "box"), ("box", "disc")]
+    combos = [("box", "box"), ("disc", "disc"), ("box", "disc"), ("disc", "box")]
+    kinds = list(tb.ALL_KINDS)
     for i in range(n):
         ak, ok = combos[i % 4]
         base = tb.gen_mdp(rng, ak, ok, mask=(rng.random() < 0.3))
-        depth = rng.choice([0, 1, 1, 2, 2, 3, 3])
-        out.append(tb.with_stack(base, tb.gen_stack(rng, base, depth, force_tl=0.35)))
+        must = kinds[i % len(kinds)]
+        stack = None
+        for _ in range(30):
+            depth = rng.choice([1, 1, 2, 2, 3, 3])
+            st = tb.gen_stack(rng, base, depth, force_tl=0.35)
+            if any(w["kind"] == must for w in st):
+                stack = st
+                break
+        if stack is None:
+            stack = tb.gen_stack(rng, base, rng.choice([0, 1, 2, 3]), force_tl=0.35)
+        out.append(tb.with_stack(base, stack))
     return out
 
 
